@@ -12,7 +12,39 @@ mod scenario;
 mod world;
 
 use scenario::Scenario;
+use std::alloc::{GlobalAlloc, Layout, System};
 use std::io::{BufRead, Write};
+use std::sync::atomic::{AtomicUsize, Ordering as AOrd};
+
+/// records the largest single allocation request (C14: memory proportional to bytes received)
+pub struct TrackingAlloc;
+pub static MAX_ALLOC: AtomicUsize = AtomicUsize::new(0);
+
+unsafe impl GlobalAlloc for TrackingAlloc {
+    unsafe fn alloc(&self, l: Layout) -> *mut u8 {
+        MAX_ALLOC.fetch_max(l.size(), AOrd::Relaxed);
+        System.alloc(l)
+    }
+    unsafe fn dealloc(&self, p: *mut u8, l: Layout) {
+        System.dealloc(p, l)
+    }
+    unsafe fn alloc_zeroed(&self, l: Layout) -> *mut u8 {
+        MAX_ALLOC.fetch_max(l.size(), AOrd::Relaxed);
+        System.alloc_zeroed(l)
+    }
+    unsafe fn realloc(&self, p: *mut u8, l: Layout, n: usize) -> *mut u8 {
+        MAX_ALLOC.fetch_max(n, AOrd::Relaxed);
+        System.realloc(p, l, n)
+    }
+}
+
+#[global_allocator]
+static GLOBAL: TrackingAlloc = TrackingAlloc;
+
+pub fn alloc_event() -> String {
+    let m = MAX_ALLOC.load(AOrd::Relaxed);
+    format!("\"ev\":\"Alloc\",\"maxk\":{}", (m / 1024).min(2_000_000_000))
+}
 
 fn arg(args: &[String], name: &str) -> Option<String> {
     args.iter().position(|a| a == name).and_then(|i| args.get(i + 1).cloned())
@@ -109,6 +141,7 @@ mod ctl {
         let sc2 = sc.clone();
         exec.spawn_env("main", move || run::env_main(sc2));
         run::REGISTRY.lock().unwrap().clear();
+        MAX_ALLOC.store(0, AOrd::Relaxed);
         let real = Duration::from_secs(30);
         let mut h = sc.horizon_ns;
         let mut bad = false;
@@ -139,6 +172,7 @@ mod ctl {
         run::REGISTRY.lock().unwrap().clear();
         let leaked: Vec<String> = snap.iter().filter(|t| !t.finished).map(|t| run::js(&t.name)).collect();
         let clean = leaked.is_empty() && !bad;
+        exec.log(alloc_event());
         exec.log(format!(
             "\"ev\":\"End\",\"clean\":{},\"leaked\":[{}],\"steps\":{}",
             clean,
@@ -300,6 +334,7 @@ mod ctl {
 
     pub fn run_one(sc: &Scenario, quiet_ms: u64) -> (Vec<world::Event>, bool) {
         world::reset_global();
+        MAX_ALLOC.store(0, AOrd::Relaxed);
         let base_threads = threads_now();
         world::log(scenario_event(sc));
         let sc2 = sc.clone();
@@ -365,6 +400,7 @@ mod ctl {
         if clean {
             main.join();
         }
+        world::log(alloc_event());
         world::log(format!("\"ev\":\"End\",\"clean\":{},\"leaked\":[],\"steps\":0", clean));
         let evs = world::global().log.lock().unwrap().clone();
         (evs, clean)
@@ -375,13 +411,19 @@ mod ctl {
         let outp = arg(args, "--out").expect("--out");
         let runs: u64 = arg(args, "--runs").and_then(|s| s.parse().ok()).unwrap_or(1);
         let quiet: u64 = arg(args, "--quiet-ms").and_then(|s| s.parse().ok()).unwrap_or(250);
+        let skip: u64 = arg(args, "--skip").and_then(|s| s.parse().ok()).unwrap_or(0);
         let f = std::io::BufReader::new(std::fs::File::open(&scen).expect("open scenarios"));
         let mut out = std::io::BufWriter::new(std::fs::File::create(&outp).expect("create out"));
         let mut total = 0;
         let mut unclean = 0;
+        let mut idx = 0u64;
         for line in f.lines() {
             let line = line.unwrap();
             if line.trim().is_empty() {
+                continue;
+            }
+            idx += 1;
+            if idx <= skip {
                 continue;
             }
             let sc: Scenario = match serde_json::from_str(&line) {
@@ -395,13 +437,17 @@ mod ctl {
                 let (evs, clean) = run_one(&sc, quiet);
                 let x = format!("{}#{}", sc.id, r);
                 write_events(&mut out, &x, &evs, 0);
+                // a later case may abort the whole process: what is done must be on disk
+                out.flush().unwrap();
                 total += 1;
                 if !clean {
                     unclean += 1;
                 }
             }
             if unclean > 50 {
-                break;
+                out.flush().unwrap();
+                println!("PARTIAL next_skip={} executions={} unclean={}", idx, total, unclean);
+                std::process::exit(3);
             }
         }
         out.flush().unwrap();
@@ -416,6 +462,20 @@ fn main() {
         if std::env::var_os("VERIF_SHOW_PANICS").is_some() {
             eprintln!("[panic] {}", info);
         }
+        // a panic is data: which thread, and was it executing library code?
+        let th = std::thread::current();
+        let name = th.name().unwrap_or("").to_string();
+        let harness_thread = ["main", "app:", "h:", "cw:", "cr:"].iter().any(|p| name.starts_with(p));
+        let inlib = !harness_thread || run::in_lib();
+        let msg = format!("{}", info);
+        let planned = msg.contains("planned handler panic");
+        world::log(format!(
+            "\"ev\":\"Panic\",\"inlib\":{},\"planned\":{},\"thname\":{},\"msg\":{}",
+            inlib && !planned,
+            planned,
+            run::js(&name),
+            run::js(&msg.chars().take(160).collect::<String>())
+        ));
     }));
     match args.get(1).map(|s| s.as_str()) {
         Some("run") => ctl::main_run(&args),
